@@ -425,6 +425,7 @@ impl Property for C19 {
                 head: true,
                 interrupt_at_probe: at,
                 file: ctx.file("c19-follow.txt").to_string_lossy().to_string(),
+                used_handle: 0,
             };
             let run = |at: Option<usize>| match crate::follow_child::run_follow(ctx, &job(at)) {
                 Ok(o) => o,
